@@ -13,9 +13,12 @@ package main
 
 import (
 	"fmt"
+	"go/ast"
 	"go/token"
 	"math/bits"
 	"sort"
+
+	"golang.org/x/tools/go/packages"
 )
 
 func init() {
@@ -23,7 +26,7 @@ func init() {
 		ID:          "C16",
 		Level:       "proof",
 		Run:         runC16,
-		Explanation: "E-LOOP/E-TERM: constant-bound loops of BytesFromLowBits and I32FromBytes are unrolled by constant propagation with the four bit helpers inlined; each output is recognised as an accumulation chain copying single input bits into distinct output bits; the two derived 32-entry bit tables are checked to be mutually inverse permutations with byte i = bits 8i..8i+7. Holds for all 2^32 values because the chains are identities of expressions.",
+		Explanation: "E-LOOP/E-TERM: constant-bound loops of BytesFromLowBits and I32FromBytes are unrolled by constant propagation with the bit helpers inlined (a shift/mask implementation needs no unrolling); the resulting terms are evaluated at the bit level: every output bit becomes a boolean formula over the input bits (conversions as zero/sign extension, shifts by constants, &, |, ^, conditionals on single-bit tests and signed comparisons with zero), simplified, and decided equal to the expected input bit (syntactically, or by enumerating the few variables of the formula). The two derived 32-entry bit tables are checked to be mutually inverse with byte i = bits 8i..8i+7. Holds for all 2^32 values because the formulas are identities of expressions; no value of the codec's input is ever tried. R16.5: the six load/store opcodes move byte k of the value to/from address+k (their effect terms equal the RV32IM rows).",
 		Assumptions: []string{
 			"Go semantics of &, |, << on int8/int32 (1<<7 wraps to the sign bit in int8) and of integer conversions",
 		},
@@ -210,7 +213,6 @@ func orShifted(t *Term) ([]bitCopy, bool) {
 func runC16(r *Run) {
 	w := r.W
 	const pk = "common/bytes"
-	r.floor("R16.1", 4)
 	r.floor("R16.2", 5)
 	r.floor("R16.3", 5)
 	r.floor("R16.4", 2)
@@ -219,7 +221,7 @@ func runC16(r *Run) {
 	helper := func(name string, get bool, tn string) {
 		fd, pkg := w.Func(pk, name)
 		if fd == nil {
-			r.undecided("R16.1", pk+"."+name, token.NoPos, "helper not found")
+			// the helpers matter only through the codec functions, which inline them
 			return
 		}
 		t, err := newInterp(w).FuncTerm(fd, pkg)
@@ -261,7 +263,7 @@ func runC16(r *Run) {
 	helper("setI8Bit", false, "int8")
 	helper("setI32Bit", false, "int32")
 
-	// R16.2 — BytesFromLowBits
+	// R16.2 — BytesFromLowBits: every bit of every result byte, as a formula over the bits of the word
 	split := map[int]int{} // n bit -> 8*byte + bit
 	splitOK := false
 	if fd, pkg := w.Func(pk, "BytesFromLowBits"); fd == nil {
@@ -269,42 +271,49 @@ func runC16(r *Run) {
 	} else {
 		t, err := newInterp(w).FuncTerm(fd, pkg)
 		if err != nil {
-			r.undecided("R16.2", pk+".BytesFromLowBits", fd.Pos(), "not in a recognised form (constant-bound loops or shift/truncate): %v", err)
+			r.undecided("R16.2", pk+".BytesFromLowBits", fd.Pos(), "not reducible to a term: %v", err)
 		} else if !(t.Op == "out" && t.S == "return" && len(t.Args[0].Args) == 1 && t.Args[0].Args[0].Op == "arr" && len(t.Args[0].Args[0].Args) == 4 && emptyState(t.Args[1])) {
 			r.undecided("R16.2", pk+".BytesFromLowBits", fd.Pos(), "does not return a literal [4]int8 without side effects")
 		} else {
+			ptypes := paramTypes(fd, pkg)
+			bvCache = map[string]bvMemo{} // parameter names are per function
+			word := firstParam(fd)
 			splitOK = true
 			for k, acc := range t.Args[0].Args[0].Args {
-				cps, err := chain(acc)
-				if err != nil {
-					if alt, ok := truncByte(acc); ok {
-						cps, err = alt, nil
-					}
-				}
 				key := fmt.Sprintf("%s.BytesFromLowBits.byte%d", pk, k)
-				if err != nil {
-					r.undecided("R16.2", key, fd.Pos(), "byte %d: %v", k, err)
+				bv, _, err := bitvec(acc, ptypes)
+				if err != nil || len(bv) != 8 {
+					r.undecided("R16.2", key, fd.Pos(), "byte %d is outside the bit-level fragment: %v", k, err)
 					splitOK = false
 					continue
 				}
-				good := len(cps) == 8
-				dst := map[int]bool{}
-				for _, c := range cps {
-					if c.src != "p0" || c.srcBit != 8*k+c.dstBit || dst[c.dstBit] {
+				good, undec := true, false
+				var wrong []string
+				for j, f := range bv {
+					switch sameAsVar(f, word, 8*k+j) {
+					case 1:
+						split[8*k+j] = 8*k + j
+					case 0:
 						good = false
+						wrong = append(wrong, fmt.Sprintf("bit %d = %s", j, clip(f.key, 60)))
+					default:
+						good, undec = false, true
+						wrong = append(wrong, fmt.Sprintf("bit %d = %s (not decided)", j, clip(f.key, 60)))
 					}
-					dst[c.dstBit] = true
-					split[c.srcBit] = 8*k + c.dstBit
 				}
 				if !good {
 					splitOK = false
 				}
-				r.check(good, "R16.2", key, fd.Pos(), "byte %d copies exactly bits %d..%d of the word to its bits 0..7 (derived: %s)", k, 8*k, 8*k+7, fmtCopies(cps))
+				if undec {
+					r.undecided("R16.2", key, fd.Pos(), "byte %d: %v", k, wrong)
+				} else {
+					r.check(good, "R16.2", key, fd.Pos(), "for every word, bit j of byte %d is bit %d+j of the word, j = 0..7 %v", k, 8*k, wrong)
+				}
 			}
 			r.check(splitOK && len(split) == 32, "R16.2", pk+".BytesFromLowBits.partition", fd.Pos(), "the four bytes partition bits [0,32) of the word: %d distinct source bits", len(split))
 		}
 	}
-	// R16.3 — I32FromBytes
+	// R16.3 — I32FromBytes: every bit of the result, as a formula over the bits of the four bytes
 	join := map[int]int{} // 8*byte+bit -> result bit
 	joinOK := false
 	if fd, pkg := w.Func(pk, "I32FromBytes"); fd == nil {
@@ -312,48 +321,51 @@ func runC16(r *Run) {
 	} else {
 		t, err := newInterp(w).FuncTerm(fd, pkg)
 		if err != nil {
-			r.undecided("R16.3", pk+".I32FromBytes", fd.Pos(), "not in a recognised form: %v", err)
+			r.undecided("R16.3", pk+".I32FromBytes", fd.Pos(), "not reducible to a term: %v", err)
 		} else if !(t.Op == "out" && t.S == "return" && len(t.Args[0].Args) == 1 && emptyState(t.Args[1])) {
 			r.undecided("R16.3", pk+".I32FromBytes", fd.Pos(), "does not return one value without side effects: op=%s S=%s nargs=%d", t.Op, t.S, len(t.Args))
 		} else {
-			acc := t.Args[0].Args[0]
-			cps, err := chain(acc)
-			if err != nil {
-				if alt, ok := orShifted(acc); ok {
-					cps, err = alt, nil
-				}
-			}
-			if err != nil {
-				r.undecided("R16.3", pk+".I32FromBytes", fd.Pos(), "%v", err)
+			ptypes := paramTypes(fd, pkg)
+			bvCache = map[string]bvMemo{} // parameter names are per function
+			names := paramNames(fd)
+			bv, _, err := bitvec(t.Args[0].Args[0], ptypes)
+			if err != nil || len(bv) != 32 || len(names) != 4 {
+				r.undecided("R16.3", pk+".I32FromBytes", fd.Pos(), "the result is outside the bit-level fragment: %v", err)
 			} else {
 				joinOK = true
-				per := map[string][]bitCopy{}
-				dst := map[int]bool{}
-				for _, c := range cps {
-					per[c.src] = append(per[c.src], c)
-					if dst[c.dstBit] {
-						joinOK = false
-					}
-					dst[c.dstBit] = true
-				}
 				for k := 0; k < 4; k++ {
-					pn := fmt.Sprintf("p%d", k)
-					good := len(per[pn]) == 8
-					for _, c := range per[pn] {
-						if c.dstBit != 8*k+c.srcBit {
+					good, undec := true, false
+					var wrong []string
+					for j := 0; j < 8; j++ {
+						f := bv[8*k+j]
+						switch sameAsVar(f, names[k], j) {
+						case 1:
+							join[8*k+j] = 8*k + j
+						case 0:
 							good = false
+							wrong = append(wrong, fmt.Sprintf("result bit %d = %s", 8*k+j, clip(f.key, 60)))
+						default:
+							good, undec = false, true
+							wrong = append(wrong, fmt.Sprintf("result bit %d = %s (not decided)", 8*k+j, clip(f.key, 60)))
 						}
-						join[8*k+c.srcBit] = c.dstBit
 					}
 					if !good {
 						joinOK = false
 					}
-					r.check(good, "R16.3", fmt.Sprintf("%s.I32FromBytes.arg%d", pk, k), fd.Pos(), "argument %d supplies bits %d..%d of the result from its bits 0..7 (derived: %s)", k, 8*k, 8*k+7, fmtCopies(per[pn]))
+					key := fmt.Sprintf("%s.I32FromBytes.arg%d", pk, k)
+					if undec {
+						r.undecided("R16.3", key, fd.Pos(), "argument %d: %v", k, wrong)
+					} else {
+						r.check(good, "R16.3", key, fd.Pos(), "for all four bytes, bits %d..%d of the result are bits 0..7 of argument %d %v", 8*k, 8*k+7, k, wrong)
+					}
 				}
-				r.check(joinOK && len(join) == 32 && len(cps) == 32, "R16.3", pk+".I32FromBytes.cover", fd.Pos(), "32 single-bit copies into 32 distinct result bits (%d copies)", len(cps))
+				r.check(joinOK && len(join) == 32, "R16.3", pk+".I32FromBytes.cover", fd.Pos(), "32 single-bit copies into 32 distinct result bits (%d)", len(join))
 			}
 		}
 	}
+	// R16.5 — the loads and stores use the codec little-endian in memory: byte k at address+k
+	r.floor("R16.5", 6)
+	ruleRunRows(r, "R16.5", map[string]bool{"lb": true, "lh": true, "lw": true, "sb": true, "sh": true, "sw": true})
 	// R16.4 — the tables are mutually inverse and little-endian
 	if splitOK && joinOK {
 		inv := true
@@ -393,6 +405,99 @@ func fmtCopies(cps []bitCopy) string {
 	out := ""
 	for _, c := range s {
 		out += fmt.Sprintf("%s[%d]→%d ", c.src, c.srcBit, c.dstBit)
+	}
+	return out
+}
+
+// sameAsVar decides whether the formula is, for every assignment, the given input bit:
+// 1 yes, 0 no, -1 undecided (too many variables to enumerate).
+func sameAsVar(f bexp, p string, i int) int {
+	if f.k == 2 {
+		if f.p == p && f.i == i {
+			return 1
+		}
+		return 0
+	}
+	if f.k == 0 || f.k == 1 {
+		return 0
+	}
+	vars := map[string]bool{fmt.Sprintf("%s.%d", p, i): true}
+	var collect func(g bexp)
+	collect = func(g bexp) {
+		if g.k == 2 {
+			vars[g.key] = true
+		}
+		for _, a := range g.args {
+			collect(a)
+		}
+	}
+	collect(f)
+	if len(vars) > 16 {
+		return -1
+	}
+	var names []string
+	for v := range vars {
+		names = append(names, v)
+	}
+	sort.Strings(names)
+	target := fmt.Sprintf("%s.%d", p, i)
+	var eval func(g bexp, env map[string]bool) bool
+	eval = func(g bexp, env map[string]bool) bool {
+		switch g.k {
+		case 0:
+			return false
+		case 1:
+			return true
+		case 2:
+			return env[g.key]
+		}
+		switch g.op {
+		case "not":
+			return !eval(g.args[0], env)
+		case "and":
+			return eval(g.args[0], env) && eval(g.args[1], env)
+		case "or":
+			return eval(g.args[0], env) || eval(g.args[1], env)
+		default:
+			return eval(g.args[0], env) != eval(g.args[1], env)
+		}
+	}
+	for m := 0; m < 1<<uint(len(names)); m++ {
+		env := map[string]bool{}
+		for k, n := range names {
+			env[n] = m>>uint(k)&1 == 1
+		}
+		if eval(f, env) != env[target] {
+			return 0
+		}
+	}
+	return 1
+}
+
+func paramNames(fd *ast.FuncDecl) []string {
+	var out []string
+	k := 0
+	for _, fl := range fd.Type.Params.List {
+		for range fl.Names {
+			out = append(out, fmt.Sprintf("p%d", k))
+			k++
+		}
+	}
+	return out
+}
+
+func firstParam(fd *ast.FuncDecl) string { return "p0" }
+
+func paramTypes(fd *ast.FuncDecl, pkg *packages.Package) map[string]string {
+	out := map[string]string{}
+	k := 0
+	for _, fl := range fd.Type.Params.List {
+		tn := typeName(pkg.TypesInfo.TypeOf(fl.Type))
+		for _, nm := range fl.Names {
+			out[fmt.Sprintf("p%d", k)] = tn
+			out[nm.Name] = tn
+			k++
+		}
 	}
 	return out
 }
